@@ -145,7 +145,8 @@ func customModel() map[string]m.CustomFn {
 			}
 			return s, nil
 		},
-		"c_fail": func(a []interface{}, _ int64) (interface{}, error) { return nil, m.ErrCustom },
+		// (an operator may return a value together with its error; Eval hands both on)
+		"c_fail": func(a []interface{}, _ int64) (interface{}, error) { return "returned-with-the-error", m.ErrCustom },
 		// strict boolean operators whose names merely look like and / or: andn = not all, orn = not any
 		"andn": func(a []interface{}, _ int64) (interface{}, error) {
 			all := true
